@@ -548,6 +548,10 @@ func (fd *Client) BatchWriteItem(input *dynamodb.BatchWriteItemInput) (*dynamodb
 		return &dynamodb.BatchWriteItemOutput{}, err
 	}
 
+	if err := fd.validateBatchWriteRequests(input); err != nil {
+		return &dynamodb.BatchWriteItemOutput{}, err
+	}
+
 	unprocessed := map[string][]*dynamodb.WriteRequest{}
 
 	for table, reqs := range input.RequestItems {
@@ -565,6 +569,37 @@ func (fd *Client) BatchWriteItem(input *dynamodb.BatchWriteItemInput) (*dynamodb
 		UnprocessedItems:      unprocessed,
 		ItemCollectionMetrics: fd.getItemCollectionMetrics(),
 	}, nil
+}
+
+// validateBatchWriteRequests rejects the whole batch before anything is written when a request can not be applied
+func (fd *Client) validateBatchWriteRequests(input *dynamodb.BatchWriteItemInput) error {
+	fd.mu.Lock()
+	defer fd.mu.Unlock()
+
+	if fd.forceFailureErr != nil {
+		return nil
+	}
+
+	for tableName, reqs := range input.RequestItems {
+		table, err := fd.getTable(tableName)
+		if err != nil {
+			return err
+		}
+
+		for _, req := range reqs {
+			if req.PutRequest != nil {
+				err = table.ValidateWriteRequest(mapAttributeValueToTypes(req.PutRequest.Item), false)
+			} else {
+				err = table.ValidateWriteRequest(mapAttributeValueToTypes(req.DeleteRequest.Key), true)
+			}
+
+			if err != nil {
+				return err
+			}
+		}
+	}
+
+	return nil
 }
 
 func validateWriteRequest(req *dynamodb.WriteRequest) error {
